@@ -278,14 +278,17 @@ mod est_cluster {
         let k = geti_or(inp, "k", 2) as usize;
         let var = gets_or(inp, "var", "kmeans");
         let ds = DatasetBase::from(d.x.clone());
+        // EM budget: on the large data sets (>= 10 000 rows, there for the parallel k-means loops of the
+        // initialisation) one restart and five EM iterations keep a fit below 0.2 s
+        let (n_runs, n_iter) = if d.x.nrows() >= 10000 { (1, 5) } else { (2, 20) };
         let res = if var == "default" {
-            GaussianMixtureModel::params(k).n_runs(2).max_n_iterations(20).tolerance(1e-4).reg_covariance(1e-3).fit(&ds)
+            GaussianMixtureModel::params(k).n_runs(n_runs).max_n_iterations(n_iter).tolerance(1e-4).reg_covariance(1e-3).fit(&ds)
         } else {
             GaussianMixtureModel::params_with_rng(k, rng_of(inp))
                 .init_method(if var == "random" { GmmInitMethod::Random } else { GmmInitMethod::KMeans })
                 .covariance_type(GmmCovarType::Full)
-                .n_runs(2)
-                .max_n_iterations(20)
+                .n_runs(n_runs)
+                .max_n_iterations(n_iter)
                 .tolerance(1e-4)
                 .reg_covariance(1e-3)
                 .fit(&ds)
@@ -1050,7 +1053,8 @@ const SITES: [&str; 10] = ["memberships", "min_dists", "memberships_dists", "cen
 const SITE_OTHER: i64 = 99;
 
 /// hook line -> compact integer tuple [code, site, tid, seq, arg]
-/// code: 1 par.begin 2 par.row 3 par.end 4 red.begin 5 red.row 6 red.end 7 red.sum, 0 = unknown
+/// code: 1 par.begin 2 par.row 3 par.end 4 red.begin 5 red.row 6 red.end 7 red.sum,
+/// 8 par.beginc 9 red.beginc (coarse loops: rows not logged) 10 red.val, 0 = unknown
 fn compact_hook(line: &str) -> Value {
     let v: Value = serde_json::from_str(line).unwrap_or(json!({}));
     let ev = v.get("ev").and_then(|x| x.as_str()).unwrap_or("");
@@ -1063,10 +1067,18 @@ fn compact_hook(line: &str) -> Value {
         ("kmeans.red", "row") => 5,
         ("kmeans.red", "end") => 6,
         ("kmeans.red", "sum") => 7,
+        ("kmeans.par", "beginc") => 8,
+        ("kmeans.red", "beginc") => 9,
+        ("kmeans.red", "val") => 10,
         _ => 0,
     };
     let site = v.get("site").and_then(|x| x.as_str()).map(|s| SITES.iter().position(|t| *t == s).map(|p| p as i64 + 1).unwrap_or(SITE_OTHER)).unwrap_or(0);
     let arg = v.get("row").or_else(|| v.get("n")).and_then(|x| x.as_i64()).unwrap_or(-1);
+    if code == 10 {
+        // value event: the bit patterns (hex strings) of the reduction result used by the code and of
+        // the sequential reduction recomputed by the hook; TLC compares them
+        return json!([code, site, geti_or(&v, "tid", -1), geti_or(&v, "seq", -1), arg, gets_or(&v, "used", "?"), gets_or(&v, "fold", "?")]);
+    }
     json!([code, site, geti_or(&v, "tid", -1), geti_or(&v, "seq", -1), arg])
 }
 
@@ -1182,12 +1194,15 @@ fn parent_main(args: &[String]) {
     let nchunks: usize = std::env::var("C20_CHUNKS").ok().and_then(|s| s.parse().ok()).unwrap_or(4).max(1);
     let maxpar: usize = std::env::var("C20_PAR").ok().and_then(|s| s.parse().ok()).unwrap_or(3).max(1);
     let maxproc = cases.iter().map(|c| geti_or(&c["inp"], "nproc", 1)).max().unwrap_or(1);
-    let chunk = ((cases.len() + nchunks - 1) / nchunks).max(1);
+    // cases are dealt round-robin to the chunks (the generator sorts them, so contiguous chunks would
+    // put all the large data sets into one child)
+    let nchunks = nchunks.min(cases.len().max(1));
+    let dealt: Vec<Vec<Value>> = (0..nchunks).map(|ci| cases.iter().skip(ci).step_by(nchunks).cloned().collect()).collect();
     let tmp = format!("{}.tmp", outp);
     std::fs::create_dir_all(&tmp).unwrap();
     // jobs: (chunk index, proc ordinal)
     let mut jobs = vec![];
-    for (ci, cs) in cases.chunks(chunk).enumerate() {
+    for (ci, cs) in dealt.iter().enumerate() {
         let cpath = format!("{}/chunk{}.ndjson", tmp, ci);
         write_ndjson(&cpath, cs);
         for p in 0..maxproc {
@@ -1260,7 +1275,7 @@ fn parent_main(args: &[String]) {
         let id = c["id"].as_i64().unwrap();
         let mut ev = results.remove(&id).unwrap_or_default();
         for cr in &crashed {
-            if idx / chunk == cr.0 && geti_or(&c["inp"], "nproc", 1) > cr.1 {
+            if idx % nchunks == cr.0 && geti_or(&c["inp"], "nproc", 1) > cr.1 {
                 ev.push(json!({"ev": "panic", "proc": cr.1, "msg": format!("process crashed: {}", cr.2)}));
             }
         }
